@@ -141,6 +141,59 @@ func c02Check(l *explore.Local, e *cpuEnv, c c02Case) *explore.Fail {
 // ---------------------------------------------------------------------------------------
 // C02 (iv): whole test ROMs with a per-instruction monitor.
 
+// c02Mode: the guest writes one value to one I/O address (through a CPU store), then executes STOP and is woken by a
+// key press, or HALT and is woken by a request, or neither; after that a sample of instructions is measured again.
+// No I/O address of a DMG changes how many machine cycles an instruction takes, whatever is stored there and whatever
+// mode the CPU has been through.
+type c02Mode struct {
+	Reg uint16 `json:"reg"`
+	Val uint8  `json:"val"`
+	Via string `json:"via"` // stop | halt | none
+}
+
+var c02ModeOps = []int{0x00, 0x18, 0xcd, 0xc9, 0x21, 0x34, 0xc5, 0xfa, 0x100 + 0xc6, 0x20, 0xc0, 0xe0, 0x08}
+
+func c02ModeCheck(l *explore.Local, _ struct{}, c c02Mode) *explore.Fail {
+	e := newCPUEnv()
+	code := []uint8{0x3e, c.Val, 0xea, uint8(c.Reg), uint8(c.Reg >> 8)}
+	switch c.Via {
+	case "stop":
+		code = append(code, 0x10, 0x00)
+	case "halt":
+		code = append(code, 0x76)
+	}
+	code = append(code, 0, 0, 0, 0, 0, 0, 0, 0)
+	e.placeCode(0xc000, code)
+	e.m.CPU.VSet(cpu.VRegs{SP: 0xdff0, PC: 0xc000})
+	e.m.I.Disable()
+	for i := 0; i < 12; i++ {
+		e.m.CPU.ExecuteMachineCycle()
+	}
+	switch c.Via {
+	case "stop":
+		e.m.CPU.OnInput() // (whether STOP stopped the CPU is C05's business; the lengths are measured either way)
+	case "halt":
+		e.m.Map.Write(0xffff, 0x04)
+		e.m.I.RequestTimer()
+	}
+	for i := 0; i < 6; i++ {
+		e.m.CPU.ExecuteMachineCycle()
+	}
+	for _, op := range c02ModeOps {
+		for _, fl := range []uint8{0x00, 0xf0} {
+			if f := c02Check(l, e, c02Case{Op1: op, Op2: 0x00, Flags: fl}); f != nil {
+				f.Msg = fmt.Sprintf("after the guest stored %02x at %04x (then: %s): %s", c.Val, c.Reg, c.Via, f.Msg)
+				f.Sig = "after an I/O store and " + c.Via + ": " + f.Sig
+				f.Case = c
+				return f
+			}
+		}
+	}
+	l.Eval(1)
+	l.Outcome(uint64(c.Reg)<<8 | uint64(c.Val))
+	return nil
+}
+
 type c02ROM struct {
 	File   string `json:"file"`
 	Frames int    `json:"frames"`
@@ -531,7 +584,7 @@ func c03DivCheck(l *explore.Local, e *cpuEnv, c c03Div) *explore.Fail {
 func init() {
 	register("C02", "model_checking", func(c *Ctx) {
 		if c.R != nil {
-			c.R.Rule = "machine cycles = number of ExecuteMachineCycle calls between instruction boundaries of the real CPU, compared with the reference cycle count (taken/not-taken chosen from the flags): every opcode x all 16 flag nibbles, every ordered pair of opcodes (the second one runs right after the first without re-seeding the CPU) x flag nibbles, every opcode again with an enabled request pending while the master enable is clear (no dispatch, same lengths; HALT then takes its single cycle without halting), and every instruction executed by the timing test ROMs (per-instruction monitor); a case = one first opcode with all 500 successors"
+			c.R.Rule = "machine cycles = number of ExecuteMachineCycle calls between instruction boundaries of the real CPU, compared with the reference cycle count (taken/not-taken chosen from the flags): every opcode x all 16 flag nibbles, every ordered pair of opcodes (the second one runs right after the first without re-seeding the CPU) x flag nibbles, every opcode again with an enabled request pending while the master enable is clear (no dispatch, same lengths; HALT then takes its single cycle without halting), and every instruction executed by the timing test ROMs (per-instruction monitor); a case = one first opcode with all 500 successors; the measurement of 13 opcodes is repeated after the guest stored each of 4 values at each I/O address FF00-FF7F / FFFF and then went through STOP + key press, HALT + request, or neither (no I/O address of a DMG changes instruction lengths)"
 			c.R.Assumptions = []string{"interrupt dispatch and HALT wake-up lengths are checked in C04/C05", "ROM monitor: single deterministic executions, checked in full"}
 		}
 		flagSets := []uint8{0x00, 0xf0}
@@ -581,6 +634,22 @@ func init() {
 		if c.Thorough() {
 			frames = 1500
 		}
+		explore.Product(c.R, "lengths-after-an-io-store", explore.PartOpt{Bound: "one store, then STOP + key press / HALT + request / nothing, then 13 opcodes x 2 flag sets measured", Domain: "every address FF00-FF7F and FFFF x values {01, 80, FF, 00}"},
+			func(yield func(c02Mode) bool) {
+				for reg := 0xff00; reg <= 0xff80; reg++ {
+					a := uint16(reg)
+					if reg == 0xff80 {
+						a = 0xffff
+					}
+					for _, v := range []uint8{0x01, 0x80, 0xff, 0x00} {
+						for _, via := range []string{"stop", "halt", "none"} {
+							if !yield(c02Mode{Reg: a, Val: v, Via: via}) {
+								return
+							}
+						}
+					}
+				}
+			}, func() struct{} { return struct{}{} }, c02ModeCheck)
 		explore.Product(c.R, "rom-monitor", explore.PartOpt{Bound: fmt.Sprintf("%d frames each, every executed instruction measured", frames), Domain: "blargg instr_timing, mem_timing, cpu_instrs, halt_bug"},
 			func(yield func(c02ROM) bool) {
 				for _, f := range []string{"blargg/instr_timing/instr_timing.gb", "blargg/mem_timing/mem_timing.gb", "blargg/cpu_instrs/cpu_instrs.gb", "blargg/halt_bug.gb"} {
